@@ -35,16 +35,16 @@ Example C03_refuted_validator_shares : witness_fails 3 2 ops_F_C03_valshares = t
 Proof. vm_compute. reflexivity. Qed.
 Print Assumptions C03_refuted_validator_shares.
 
-(* further on: "no share quantity is ever negative" fails for the asset's total of validator shares
-   (clause 33) and for the staked total itself (clause 32: the last holder exits with its reported
-   balance, which the 0.01 rounder rounds up to one unit more than the recorded total) — two
-   delegations, two slashes, every holder leaves; history executed on the real implementation.
-   Delegation shares and the validators' own share records stay non-negative on it (clause 3). *)
-Example C03_refuted_negative_total :
-  witness_fails 3 33 ops_F_C03_negative_total = true /\ witness_fails 3 32 ops_F_C03_negative_total = true /\
-  witness_fails 3 3 ops_F_C03_negative_total = false.
+(* fixed (Undelegate refuses more than the asset holds): on the history that used to drive the staked total to
+   -1 (the last holder exits with its reported balance, which the 0.01 rounder rounds up to one unit more than
+   the recorded total; at maturity the payout then failed and the end-of-block returned an error) the staked
+   total and, on this history, the asset's share total stay non-negative; the over-ask is refused.  History
+   re-recorded on the repaired application.  The ledger mismatch of clause 2 (F-C03-1) is a different defect and is still there. *)
+Example C03_fixed_negative_staked_total :
+  witness_fails 3 32 ops_F_C03_negative_total = false /\ witness_fails 3 33 ops_F_C03_negative_total = false /\
+  witness_fails 3 3 ops_F_C03_negative_total = false /\ witness_fails 3 2 ops_F_C03_negative_total = true.
 Proof. vm_compute. repeat split; reflexivity. Qed.
-Print Assumptions C03_refuted_negative_total.
+Print Assumptions C03_fixed_negative_staked_total.
 
 (* structural invariants of every reachable state: every map is strictly sorted by key — no
    delegation / validator / asset record exists twice — and every asset sits under its denom *)
